@@ -67,7 +67,44 @@ def corrupted_trace():
     return good
 
 
+def corrupted_nodes():
+    """Binding of the node-level traces: corrupted steps of a recorded search must be rejected with the expected clause."""
+    import copy
+    from fen2json import fen2pos
+    hb = vlib.build_harness("dev")
+    d = os.path.join(vlib.OUT, "selftest")
+    os.makedirs(d, exist_ok=True)
+    jf, ef = os.path.join(d, "nodes.jobs"), os.path.join(d, "nodes.ndjson")
+    pos = fen2pos("r1bqkbnr/pppp1ppp/2n5/4p3/4P3/5N2/PPPP1PPP/RNBQKB1R w KQkq - 2 3")
+    vlib.write_ndjson(jf, [{"hash": 1, "tag": "selftest", "searches": [{"pos": pos, "depth": dd, "record": True} for dd in (2, 3)]}])
+    vlib.harness(hb, ["nodes", jf, ef])
+    rows = vlib.read_ndjson(ef)
+    ok = vlib.tlc("Trace_Nodes", env={"TRACE": ef}, timeout=600)
+    idx = lambda k, n: [i for i, x in enumerate(rows) if x.get("e") == k][n]
+    cases = []
+    c = copy.deepcopy(rows); c[idx("R", 10)]["v"][0] += 1; cases.append(("result value", c, ("DRIFT", "NODES")))
+    c = copy.deepcopy(rows); c[idx("M", 5)]["m"] = [1 + 64 * 2]; cases.append(("illegal move", c, ("VIOL", "C04")))
+    first_end = idx("end", 0)
+    last_root_p = [i for i, x in enumerate(rows) if x.get("e") == "P" and x["p"] == 0 and i < first_end][-1]
+    c = copy.deepcopy(rows); del c[last_root_p]; cases.append(("dropped line update", c, ("VIOL", "C08")))
+    c = copy.deepcopy(rows); i = idx("M", 20); c.insert(i, {"e": "X", "p": c[i]["p"], "v": [0, 0, 0], "m": []}); cases.append(("step after stop", c, ("VIOL", "C09")))
+    c = copy.deepcopy(rows); m0 = [i for i, x in enumerate(c) if x.get("e") == "M" and x["p"] == 0]; c[m0[1]]["m"] = c[m0[0]]["m"]; cases.append(("move twice", c, ("VIOL", "C10")))
+    c = copy.deepcopy(rows); i = [i for i, x in enumerate(c) if x.get("e") == "S" and x["v"][1] > 0][3]; c[i]["v"][2] = 1 - c[i]["v"][2]; cases.append(("check flag", c, ("VIOL", "C01")))
+    c = copy.deepcopy(rows); c[idx("L", 15)]["e"] = "D"; cases.append(("false draw", c, ("VIOL", "C11")))
+    good = ok.ok and not [1 for t, _ in ok.reports if t in ("VIOL", "DRIFT")]
+    for name, rws, (tag, pid) in cases:
+        bp = os.path.join(d, "nodes.corrupt.ndjson")
+        vlib.write_ndjson(bp, rws)
+        r = vlib.tlc("Trace_Nodes", env={"TRACE": bp}, timeout=600)
+        hit = any(t == tag and x.get("id") == pid for t, x in r.reports)
+        print("SELFTEST corrupted-node-trace %-22s -> %s" % (name, "rejected (%s %s)" % (tag, pid) if hit else "NOT REJECTED"))
+        good = good and hit
+    return good
+
+
 def main(args):
+    if args == ["nodes"]:
+        return 0 if corrupted_nodes() else 1
     items = []
     for j in sorted(glob.glob(os.path.join(vlib.VERIF, "mutants", "*.json"))):
         m = json.load(open(j))
